@@ -100,6 +100,13 @@ CLAIMED.update({
             "Decode equality, the bytes inside fields, escape semantics and the event-time encoding are not decided.", "§4 C10"),
 })
 
+CLAIMED.update({
+    "C06": ("static recognition of injective key-encoding idioms over SSA (enumeration of key-building loops by shape, length-prefix rule), provenance agreement of tag / queue id / labels, who-writes/what-is-read rules for the .id file",
+            "For all key tuples at once: every map key built from the elements of a []string (pipeline lookup key, metric key-set key; enumerated by shape) is a length-prefixed concatenation, which is injective on tuples of arbitrary byte strings, including empty values and separators; "
+            "tag, queue id and metric labels of a pipeline derive from the same key values and every output of the pipeline receives that tag / id; globally stored keys are deep copies; the .id file holds the unsanitised id and recovery returns its content. "
+            "The pipeline id itself (strings.Join/Split with ',') is not injective: listed as a known finding. Not decided: hash-suffix collisions of directory names, tag-template semantics.", "§4 C06"),
+})
+
 NOT_APPLICABLE = {
     "C08": "framing independent of TCP segmentation is an extensional equality between the record sequence under every fragmentation and a reference framer; its truth lives in index arithmetic over runtime offsets, no structural clause short of re-deriving the algorithm is a necessary condition (index SAFETY of multiLineReader is decided under C07)",
     "C14": "completeness/exactness of e-mail redaction is a language-recognition property of a hand-written scanner over all texts (value-level); static analysis in reach decides only its index safety (under C07)",
